@@ -30,7 +30,8 @@ RULE = ('Generated positive equity curves of length 2-600 on business-day date i
         'every common number and series and to_file()/json.load round-trips; in half the cases a benchmark curve on the '
         'same dates is supplied and the benchmark section is checked against its own oracle. Non-trivial = >= 1 strictly under-water '
         'date, >= 2 calendar months and not monotone-up.'
-        " Round-10 reach: a third of the frames carry `Cash` and `Positions` columns around `Equity` (tear sheet and JSON statistics).")
+        " Round-10 reach: a third of the frames carry `Cash` and `Positions` columns around `Equity` (tear sheet and JSON statistics)."
+        " Round-11 reach: one case in fifty has 5001 or 5400 observations.")
 ASSUMPTIONS = [
     'positive equity, business-day date index (datetime.date) as produced by get_equity_curve()',
     'Sharpe/Sortino compared only when their denominator is well conditioned; Sortino only with >= 2 negative returns',
@@ -471,6 +472,8 @@ def _near_peak_revisit(o):
 def cases(draw):
     shape = draw(st.sampled_from(SHAPES))
     n = draw(st.one_of(st.integers(13, 120), st.integers(3, 12), st.integers(121, 600), st.integers(30, 300), st.just(2)))
+    if draw(st.sampled_from([False] * 49 + [True])):
+        n = draw(st.sampled_from([5001, 5400]))          # twenty years of daily observations
     d0 = draw(st.one_of(st.dates(min_value=D.date(1995, 1, 1), max_value=D.date(2037, 1, 1)),
                         st.sampled_from([D.date(2020, 12, 21), D.date(2015, 12, 24), D.date(2026, 12, 28), D.date(1999, 12, 27)])))
     e0 = draw(st.one_of(gen.logu(10, 1e6), st.sampled_from([100.0, 1e6, 1e4])))
